@@ -6,6 +6,7 @@
 package vcache
 
 import (
+	"sync/atomic"
 	"fmt"
 	"sort"
 	"sync"
@@ -106,6 +107,9 @@ func (i *Informer) StopRequested() bool {
 	}
 }
 
+// StartUnsynced: see NewSharedIndexInformer.
+var StartUnsynced atomic.Bool
+
 func NewSharedIndexInformer(lw cache.ListerWatcher, example runtime.Object, resync time.Duration, indexers cache.Indexers) cache.SharedIndexInformer {
 	regMu.Lock()
 	defer regMu.Unlock()
@@ -120,7 +124,9 @@ func NewSharedIndexInformer(lw cache.ListerWatcher, example runtime.Object, resy
 		stoppedCh: make(chan struct{}),
 	}
 	if inf.mode == Controlled {
-		inf.synced = true
+		// StartUnsynced: informers created while it is set never report HasSynced (an informer whose LIST keeps
+		// failing: missing RBAC, a broken aggregated API)
+		inf.synced = !StartUnsynced.Load()
 		close(inf.syncedCh)
 	}
 	registry = append(registry, inf)
